@@ -367,8 +367,18 @@ func (s *snappyCodec) decompress(compressed []byte) ([]byte, error) {
 	if len(compressed) < 4 {
 		return nil, errors.New("snappy block too short to hold a checksum")
 	}
-	var err error
-	s.buf, err = snappy.Decode(s.buf[:cap(s.buf)], compressed[:len(compressed)-4])
+	body := compressed[:len(compressed)-4]
+	// snappy.Decode allocates the decoded length the block declares before it
+	// looks at the data. The densest snappy element turns 3 bytes into 64, so a
+	// declaration of more than 22 times the block's size is damage.
+	n, err := snappy.DecodedLen(body)
+	if err != nil {
+		return nil, fmt.Errorf("snappy decode failed: %w", err)
+	}
+	if n > 22*len(body) {
+		return nil, fmt.Errorf("snappy block of %d bytes declares %d bytes of data", len(body), n)
+	}
+	s.buf, err = snappy.Decode(s.buf[:cap(s.buf)], body)
 	if err != nil {
 		return nil, fmt.Errorf("snappy decode failed: %w", err)
 	}
